@@ -103,6 +103,9 @@ func runC13(r *core.Run) {
 	}
 	byForm := map[fkey]map[string]int{}
 	for i := range obs {
+		if obs[i].Skipped {
+			continue // not executed: the run had already met many calls that do not return
+		}
 		o, op, c, p := &obs[i], &ops[i], &cases[opCase[i]], &pk[i]
 		desc := map[string]interface{}{"items": c.Items, "model_out": c.Out, "model_err": c.Err}
 		if o.Bad() {
@@ -352,6 +355,9 @@ func runXmpRoot(r *core.Run, rng *rand.Rand, packets []xmpCase) {
 		return
 	}
 	for i := range obs {
+		if obs[i].Skipped {
+			continue // not executed: the run had already met many calls that do not return
+		}
 		o, op, c, p := &obs[i], &ops[i], &cases[i], &pk[i]
 		cls := "within-buffer"
 		if c.Fulls > 0 {
